@@ -35,12 +35,12 @@ func checkC08(ctx *Ctx) {
 		"at quiescent points (asynchronous cache goroutines awaited through hooks) an evicted key must be gone from the store, the volatile index and the heaps, every surviving key must hold the value last written, eviction must have stopped once usage was under the limit, " +
 		"and under noeviction a write is refused exactly while usage is at or above the limit and nothing is ever removed. distinct_nontrivial = distinct (policy, event/assertion class, candidate-set class) observed")
 	ctx.Assume("recency stamps in the heaps are real time (milliseconds): the harness spaces accesses by 3 ms and awaits the asynchronous cache-update goroutines before the next access",
-		"frequency = number of client commands (SET or GET) that touched the key since it entered the cache")
+		"frequency = number of client commands (SET, GET, EXPIREAT) that touched the key since it entered the cache; under a volatile policy a key enters the cache when it gets a deadline")
 	if ctx.Fork(7, "", ctx.Watchdog()) {
 		return
 	}
 	quietLogs()
-	n := ctx.N(8, 120)
+	n := ctx.N(40, 200)
 	for pi, pol := range c08Policies {
 		if !ctx.Mine(pi) {
 			continue
@@ -170,6 +170,9 @@ func c08History(ctx *Ctx, pol string, h int) bool {
 				}
 				st.val, st.lastUse = val, seq
 				st.uses++
+				if strings.HasPrefix(pol, "volatile") && vol && !st.volatile {
+					st.uses = 1 // the key enters the candidate cache now: its frequency starts here
+				}
 				// a plain SET on an existing key keeps or clears the deadline (silent): track what the dump says later
 				st.volatile = vol || st.volatile
 			}
@@ -193,9 +196,12 @@ func c08History(ctx *Ctx, pol string, h int) bool {
 			if st := live[id]; st != nil {
 				if r.Intn(2) == 0 {
 					in.Do("EXPIREAT", key, "1999999999")
-					st.volatile = true
 					// setting an expiry touches the key (it counts as an access in the eviction caches)
 					st.uses++
+					if strings.HasPrefix(pol, "volatile") && !st.volatile {
+						st.uses = 1 // the key enters the candidate cache now: its frequency starts here
+					}
+					st.volatile = true
 					st.lastUse = seq
 					trace = append(trace, fmt.Sprintf("[db%d] EXPIREAT %s", db, key))
 				} else {
